@@ -931,3 +931,53 @@ Qed.
 (* the optional flag comes back for every class default and every value *)
 Lemma opt_flag_roundtrip default v : opt_flag_load default (opt_flag_save default v) = v.
 Proof. unfold opt_flag_save, opt_flag_load. destruct v, default; reflexivity. Qed.
+
+(* ------------------------------------------------------------------ data dictionaries of to_meshio *)
+Lemma lookup_dict_set {V} k k' (v : V) d :
+  lookup k (dict_set k' v d) = if String.eqb k k' then Some v else lookup k d.
+Proof.
+  induction d as [|[k2 v2] d IH]; simpl.
+  - reflexivity.
+  - destruct (String.eqb_spec k' k2) as [->|Hne]; simpl.
+    + destruct (String.eqb k k2); reflexivity.
+    + rewrite IH. destruct (String.eqb_spec k k2) as [->|Hne2].
+      * destruct (String.eqb_spec k2 k') as [He|_]; [congruence | reflexivity].
+      * reflexivity.
+Qed.
+
+(* a key the encoder does not produce keeps the caller's value *)
+Lemma lookup_merge_user {V} k (a b : list (String.string * V)) :
+  lookup k b = None -> lookup k (dict_merge a b) = lookup k a.
+Proof.
+  unfold dict_merge. revert a. induction b as [|[k' v'] b IH]; intros a H; simpl in *; [reflexivity|].
+  destruct (String.eqb_spec k k') as [->|Hne]; [discriminate|].
+  rewrite (IH _ H), lookup_dict_set. destruct (String.eqb_spec k k'); [contradiction | reflexivity].
+Qed.
+
+(* every key of the encoder (pairwise distinct, as in a dictionary) carries the encoder's value *)
+Lemma lookup_merge_enc {V} k (v : V) (a b : list (String.string * V)) :
+  NoDup (map fst b) -> lookup k b = Some v -> lookup k (dict_merge a b) = Some v.
+Proof.
+  unfold dict_merge. revert a. induction b as [|[k' v'] b IH]; intros a Hn H; simpl in *; [discriminate|].
+  inversion Hn as [|? ? Hk Hn']; subst.
+  destruct (String.eqb_spec k k') as [->|Hne].
+  - injection H as ->.
+    assert (Hnone : lookup k' b = None).
+    { clear -Hk. induction b as [|[k2 v2] b IH]; simpl; [reflexivity|].
+      destruct (String.eqb_spec k' k2) as [->|]; [exfalso; apply Hk; left; reflexivity|]. apply IH. intros Hin. apply Hk. right. exact Hin. }
+    fold (dict_merge (dict_set k' v a) b). rewrite (lookup_merge_user k' _ b Hnone), lookup_dict_set, String.eqb_refl. reflexivity.
+  - apply IH; assumption.
+Qed.
+
+(* forwarding theorem for the data dictionaries of to_meshio *)
+Theorem data_option_spec {V} (flag : bool) (user : option (list (String.string * V))) (enc : list (String.string * V)) :
+  (flag = false -> data_option flag user enc = user) /\
+  (flag = true -> exists d, data_option flag user enc = Some d /\
+     (forall k, lookup k enc = None -> lookup k d = match user with Some u => lookup k u | None => None end) /\
+     (NoDup (map fst enc) -> forall k v, lookup k enc = Some v -> lookup k d = Some v)).
+Proof.
+  split; intros ->; simpl; [reflexivity|].
+  eexists. split; [reflexivity|]. split.
+  - intros k Hk. rewrite (lookup_merge_user k _ enc Hk). destruct user; reflexivity.
+  - intros Hn k v Hk. apply lookup_merge_enc; assumption.
+Qed.
